@@ -108,6 +108,21 @@ def enc_step(tab, e, rules_meta, pre_consts):
     return f'R {bi} {node_index(b, node)} {c} {w}'
 
 
+def world_limit_exceeded(tab, b) -> bool:
+    "does the library's own MaxWorlds helper say this branch is over its world limit (asked of the real rules)"
+    from pytableaux.proof.helpers import MaxWorlds
+    for r in tab.rules:
+        try:
+            h = r[MaxWorlds]
+        except Exception:  # noqa - rule without that helper
+            continue
+        try:
+            return bool(h.is_exceeded(b))
+        except Exception:  # noqa
+            continue
+    return False
+
+
 def dump_branch(b):
     nodes = ' ; '.join(wire.enc_node(n) for n in b)
     ticked = ' '.join(str(i) for i, n in enumerate(b) if b.is_ticked(n))
@@ -172,7 +187,7 @@ def run_job(job):
                 cm = bool(m.is_countermodel_to(arg))
             except Exception as ex:  # noqa
                 cm = f'{type(ex).__name__}: {ex}'
-            ms.append(dict(bad=bad, countermodel=cm, quit=any(isinstance(n, FlagNode) and n.get('flag') == 'quit' for n in b),
+            ms.append(dict(bad=bad, countermodel=cm, world_limit=world_limit_exceeded(tab, b), quit=any(isinstance(n, FlagNode) and n.get('flag') == 'quit' for n in b),
                            branch=' ; '.join(wire.enc_node(n) for n in b), index=branch_index(tab, b)))
         out['models'] = ms
     out['t_run'] = round(_t.time() - _t0, 3)
